@@ -830,9 +830,11 @@ pub fn hang_pair(rng: &mut Rng) -> (Vec<(Vec<P>, Vec<Vec<P>>)>, Vec<(Vec<P>, Vec
             continue;
         }
         // B: outer vertex P and near vertex Q1 strictly above y = h, far vertex Q2 at or below the box's top
-        let p = (rng.range(-2, w + 2), h + rng.range(2, 5));
+        // (the long edge may also pass BESIDE the box, under one of its lower corners, without touching A at all:
+        //  then a vertex of A lies directly above it while everything else of B near that place is beyond the box)
+        let p = (rng.range(-4, w + 4), h + rng.range(2, 6));
         let q1 = (p.0 + rng.range(-2, 2), h + rng.range(1, p.1 - h));
-        let q2 = (rng.range(-2, w + 2), rng.range(-2, h - 1));
+        let q2 = (rng.range(-3, w + 3), rng.range(-4, h - 1));
         let mut b = vec![p, q1, q2];
         if rng.chance(1, 3) {
             b.push((q2.0 + rng.range(1, 2), q2.1 + rng.range(0, 1)));
